@@ -320,7 +320,35 @@ func (m *mirror) runJob(j Job, seed int64, replay string) (*Report, string, erro
 	var stdout, stderr bytes.Buffer
 	cmd.Stdout = &stdout
 	cmd.Stderr = &stderr
-	err := cmd.Run()
+	// watchdog: scheduled explorations stop themselves at their budget and every enumeration finishes in
+	// minutes on a tree where the property holds; a job still running after the hard limit has a call
+	// that never returned (seen on broken trees: a free-running enumeration waiting for data that a failed
+	// write never sent). It is killed and reported as a violation of the job's termination.
+	limit := 45 * time.Minute
+	if os.Getenv("VERIF_TIER") == "thorough" {
+		limit = 6 * time.Hour
+	}
+	if v := os.Getenv("VERIF_JOB_LIMIT_S"); v != "" {
+		if n, e := strconv.Atoi(v); e == nil && n > 0 {
+			limit = time.Duration(n) * time.Second
+		}
+	}
+	err := cmd.Start()
+	if err == nil {
+		done := make(chan error, 1)
+		go func() { done <- cmd.Wait() }()
+		select {
+		case err = <-done:
+		case <-time.After(limit):
+			cmd.Process.Kill()
+			<-done
+			if replay == "" {
+				msg := fmt.Sprintf("the job did not finish within %v and was killed: some call in it never returned", limit)
+				return &Report{Job: j, Engine: "watchdog", CapHit: "killed by the watchdog", Violations: []Violation{{Clause: "job-terminates", Sig: j.Scenario + paramStr(j.Params) + "|job-terminates", Msg: msg}}}, stderr.String(), nil
+			}
+			err = fmt.Errorf("killed after %v", limit)
+		}
+	}
 	logs := stderr.String()
 	// the report is the last line starting with "REPORT "
 	var rep *Report
@@ -805,6 +833,7 @@ func main() {
 		if tier != "quick" && tier != "thorough" {
 			fatal("unknown tier %q", tier)
 		}
+		os.Setenv("VERIF_TIER", tier) // (the job watchdog's limit depends on it)
 		os.Exit(runProperty(os.Args[2], tier, seed))
 	case "replay":
 		if len(os.Args) < 3 {
